@@ -7,6 +7,7 @@ mod frontend;
 mod batch;
 mod text;
 mod rename;
+mod sem;
 mod config;
 mod filters;
 mod astjson;
@@ -21,6 +22,7 @@ fn main() {
         Some("batch") => batch::main(&args[1..]),
         Some("config") => config::main(&args[1..]),
         Some("filters") => filters::main(&args[1..]),
+        Some("sem") => sem::main(&args[1..]),
         Some("rename") => rename::main(&args[1..]),
         Some("text") => text::main(&args[1..]),
         Some("astcheck") => astjson::main_astcheck(&args[1..]),
